@@ -677,6 +677,15 @@ func writeExpression(ctx *exprContext, sb *strings.Builder, x parser.Expr) error
 		default:
 			fmt.Fprintf(sb, "/* unhandled %s unary op */ ", x.Op)
 		}
+		if isSignedExpr(x.X) {
+			// Avoid "--" (a SQL comment) and "+-" runs.
+			sb.WriteString("(")
+			if err := writeExpression(ctx, sb, x.X); err != nil {
+				return err
+			}
+			sb.WriteString(")")
+			return nil
+		}
 		if err := writeExpressionMaybeParen(ctx, sb, x.X); err != nil {
 			return err
 		}
@@ -771,7 +780,14 @@ func writeExpression(ctx *exprContext, sb *strings.Builder, x parser.Expr) error
 		}
 		sb.WriteString(")")
 	case *parser.IndexExpr:
-		if err := writeExpressionMaybeParen(ctx, sb, x.X); err != nil {
+		if isSignedExpr(x.X) {
+			// Indexing binds tighter than a sign.
+			sb.WriteString("(")
+			if err := writeExpression(ctx, sb, x.X); err != nil {
+				return err
+			}
+			sb.WriteString(")")
+		} else if err := writeExpressionMaybeParen(ctx, sb, x.X); err != nil {
 			return err
 		}
 		sb.WriteString("[")
@@ -801,6 +817,19 @@ func writeExpression(ctx *exprContext, sb *strings.Builder, x parser.Expr) error
 		fmt.Fprintf(sb, "NULL /* unhandled %T expression */", x)
 	}
 	return nil
+}
+
+// isSignedExpr reports whether x (ignoring parentheses) is a unary plus or minus expression.
+func isSignedExpr(x parser.Expr) bool {
+	for {
+		p, ok := x.(*parser.ParenExpr)
+		if !ok {
+			break
+		}
+		x = p.X
+	}
+	_, ok := x.(*parser.UnaryExpr)
+	return ok
 }
 
 // writeExpressionMaybeParen writes an expression to sb,
